@@ -128,11 +128,27 @@ def judge(res, sig, what, data, channels, cols, bins_arg, f, sigma, one, expect_
     """one call + all contract clauses.  cols: indices of the two gated columns in np.asarray(data).  Returns mask or None."""
     kw = extra_kw or {}
     try:
-        out = gate(data, channels, bins_arg() if callable(bins_arg) else bins_arg, f, sigma, True, **kw)
+        bins_given = bins_arg() if callable(bins_arg) else bins_arg
+        out = gate(data, channels, bins_given, f, sigma, True, **kw)
         short = gate(data, channels, bins_arg() if callable(bins_arg) else bins_arg, f, sigma, False, **kw)
     except Exception as e:
         res.violation(sig + ':raises:%s' % type(e).__name__, '%s raised %s: %s' % (what, type(e).__name__, e), one)
         return None
+    # the reported grid is a record of its own: rescaling the caller's edge arrays afterwards does not change it (and they are two arrays)
+    if isinstance(bins_given, (list, tuple, np.ndarray)):
+        mine = [e for e in (bins_given if not isinstance(bins_given, np.ndarray) or bins_given.ndim > 1 else [bins_given]) if isinstance(e, np.ndarray) and e.dtype.kind == 'f' and e.size]
+        if mine:
+            snap = [np.array(e, dtype=float).tolist() for e in out.bin_edges]
+            for e in mine:
+                e *= 3.0
+                e += 1.0
+            now = [np.array(e, dtype=float).tolist() for e in out.bin_edges]
+            if now != snap or out.bin_edges[0] is out.bin_edges[1]:
+                res.violation(sig + ':edges-alias-bins', '%s: the returned bin edges change when the caller rescales its own edge arrays afterwards' % what, one)
+                return None
+            for e in mine:
+                e -= 1.0
+                e /= 3.0
     arr = np.asarray(data)
     n = arr.shape[0]
     mask = np.asarray(out.mask)
@@ -433,7 +449,11 @@ def run_refusals(c, res):
     bad = [('f=-0.1', lambda: gate(arr, [0, 1], bins(), -0.1, 1.0)), ('f=1.5', lambda: gate(arr, [0, 1], bins(), 1.5, 1.0)),
            ('f=-1e-9', lambda: gate(arr, [0, 1], bins(), -1e-9, 1.0)), ('f=1+1e-9', lambda: gate(arr, [0, 1], bins(), 1 + 1e-9, 1.0)),
            ('one channel', lambda: gate(arr, [0], bins(), 0.5, 1.0)), ('three channels', lambda: gate(arr, [0, 1, 2], bins(), 0.5, 1.0)),
-           ('one event', lambda: gate(arr[:1], [0, 1], bins(), 0.5, 1.0)), ('no events', lambda: gate(arr[:0], [0, 1], bins(), 0.5, 1.0))]
+           ('one event', lambda: gate(arr[:1], [0, 1], bins(), 0.5, 1.0)), ('no events', lambda: gate(arr[:0], [0, 1], bins(), 0.5, 1.0)),
+           # not a fraction at all
+           ('f=nan', lambda: gate(arr, [0, 1], bins(), float('nan'), 1.0)), ('f=np.float32 nan', lambda: gate(arr, [0, 1], bins(), np.float32('nan'), 1.0)),
+           ('f=nan, short form', lambda: gate(arr, [0, 1], bins(), float('nan'), 1.0, False)), ('f=inf', lambda: gate(arr, [0, 1], bins(), float('inf'), 1.0)),
+           ('f=-inf', lambda: gate(arr, [0, 1], bins(), float('-inf'), 1.0))]
     for name, fn in bad:
         try:
             fn()
